@@ -75,19 +75,29 @@ Definition reduce_q (code : Z) (vs : list Q) (ws : list Q) : option Q :=
 (* one group of cells -> one output cell.  codes 8 (and) and 9 (or) fold ALL children (integer
    maps with sentinel 0 and wide masks); the others reduce, field by field, the cells whose
    primary is valid.  [wts] are the weights aligned with [cells] (sentinel already -> 0). *)
-Definition red_cells (k : kinfo) (code : Z) (kout : kinfo) (cw : list (cellv * cellv)) : cellv :=
+Definition red_cells (k : kinfo) (code : Z) (kout : kinfo) (nb : cellv) (cw : list (cellv * cellv)) : cellv :=
   let cells := map fst cw in
   if (code =? 8) || (code =? 9) then
     match cells with
-    | [] => blank_of kout
+    | [] => nb
     | c0 :: r => [fold_left (qbit (if code =? 8 then Z.land else Z.lor)) (map hd1 r) (hd1 c0)]
     end
   else
     let vw := filter (fun c => k_valid k (fst c)) cw in
     let ws := map (fun c => hd1 (snd c)) vw in
     map (fun j => match reduce_q code (map (fun c => znth q0 (fst c) j) vw) ws with
-                  | Some q => q | None => k_sent kout end)
+                  | Some q => q | None => znth q0 nb j end)
         (zrange 0 (k_nf kout)).
+
+(* the property's reading of the bitwise reductions: over the VALID children only (an invalid
+   child holds 0, which is absorbing for 'and': known finding F21 where the code differs) *)
+Definition red_cells_spec (k : kinfo) (code : Z) (kout : kinfo) (nb : cellv) (cw : list (cellv * cellv)) : cellv :=
+  if code =? 8 then
+    match filter (k_valid k) (map fst cw) with
+    | [] => nb
+    | c0 :: r => [fold_left (qbit Z.land) (map hd1 r) (hd1 c0)]
+    end
+  else red_cells k code kout nb cw.
 
 (* ---------- instantiated operations ---------- *)
 Definition x_read (m : smap cellv) (p : Z) : cellv := read cellv dcell m p.
@@ -190,21 +200,18 @@ Definition step2 (w : world) (op : list (list Z)) : world * result :=
         (wset w hout (mkh k m' (d_bool_op cellv dcell f d (h_d s2))), ok_res)
       end
     else if code =? 20 then
-      (* degrade: [20];[h];[hout];[r code];kout;[hw] *)
+      (* degrade: [20];[h];[hout];[r code];kout;[hw];blank *)
       let r := gz op 3 0 in let rc := gz op 3 1 in
       let kout := kinfo_of (grp op 4) in
-      let nb := blank_of kout in
+      let nb := qs_of (grp op 6) in      (* the output blank: UNSEEN in every output field's type *)
       let hw := gz op 5 0 in
       match (if hw <? 0 then Some (mkh k m d) else wget w hw) with
       | None => (w, err 1)
       | Some sw =>
         let wsp := if hw <? 0 then map (fun _ => [q0]) (sp m) else x_weights (h_k sw) (sp (h_m sw)) in
         let wd := if hw <? 0 then map (fun _ => [q0]) (dense d) else x_weights (h_k sw) (dense (h_d sw)) in
-        let nf' := nfine m / r in
-        let s := group_reduce2 cellv cellv (red_cells k rc kout) r (sp m) wsp in
-        let m' := mkmap nf' (rebuild_idx cellv m nf') (zrepeat nb nf' ++ zskipn nf' s) nb None in
-        let d' := d_degrade2 cellv cellv (red_cells k rc kout) r nb d
-                             (mkd (d_nfine d) wd (dcov d) [q0]) in
+        let m' := degrade2 cellv cellv (red_cells k rc kout nb) r nb m wsp in
+        let d' := d_degrade2 cellv cellv (red_cells_spec k rc kout nb) r nb d wd in
         (wset w hout (mkh kout m' d'), ok_res)
       end
     else if code =? 21 then
@@ -226,7 +233,12 @@ Definition step2 (w : world) (op : list (list Z)) : world * result :=
       let m' := update_ranges cellv dcell v_add v_or v_and (k_zero k) (k_is_sent k) (k_sent_nonzero k)
                               m o rows value na in
       let pvs := map (fun p => (p, value)) (expand_ranges rows) in
-      (wset w hout (mkh k m' (x_dupdate k d o pvs na)), ok_res)
+      let d1 := x_dupdate k d o pvs na in
+      (* C08 allows the coverage mask to be a superset of the needed one (a range end on a block
+         edge names the next coverage pixel): the needed mask is returned for the superset test and
+         the L0 state carries on with the mask the layout model predicts *)
+      (wset w hout (mkh k m' (mkd (d_nfine d1) (dense d1) (coverage_mask (nfine m') (idx m')) (d_blank d1))),
+       [ok1; zs_of_bools (dcov d1)])
     else if code =? 24 then
       (wset w hout (mkh k (copy_map cellv m) d), ok_res)
     else if code =? 25 then
@@ -252,12 +264,17 @@ Definition step2 (w : world) (op : list (list Z)) : world * result :=
       let j := gz op 3 0 in let fs := mkq (gz op 3 1) (gz op 3 2) in
       let pix := grp op 4 in
       let vals := qs_of (grp op 5) in
+      (* the code's guard looks at the view's own value; the property speaks of the parent's
+         valid pixels (a stored field value equal to that field's sentinel also counts as invalid in
+         the field map, as the property's exception clause says): both verdicts are returned *)
       let guard_l1 := existsb (fun p => qeqb (znth q0 (x_read m p) j) fs) pix in
-      if guard_l1 then (w, raised)
-      else
-        let pvs1 := map (fun pv => (fst pv, zupd (x_read m (fst pv)) j (snd pv))) (combine pix vals) in
-        let pvs0 := map (fun pv => (fst pv, zupd (d_read cellv dcell d (fst pv)) j (snd pv))) (combine pix vals) in
-        (wset w hout (mkh k (x_update k m URepl pvs1 false) (x_dupdate k d URepl pvs0 false)), ok_res)
+      let guard_l0 := existsb (fun p => negb (k_valid k (d_read cellv dcell d p)) ||
+                                        qeqb (znth q0 (d_read cellv dcell d p) j) fs) pix in
+      let pvs1 := map (fun pv => (fst pv, zupd (x_read m (fst pv)) j (snd pv))) (combine pix vals) in
+      let pvs0 := map (fun pv => (fst pv, zupd (d_read cellv dcell d (fst pv)) j (snd pv))) (combine pix vals) in
+      let m' := if guard_l1 then m else x_update k m URepl pvs1 false in
+      let d' := if guard_l0 then d else x_dupdate k d URepl pvs0 false in
+      (wset w hout (mkh k m' d'), [ok1; [if guard_l1 then 1 else 0; if guard_l0 then 1 else 0]])
     else if code =? 28 then
       (* check_bits over all pixels: [28];[h];[-];[bits integer] *)
       let bits := gz op 3 0 in
